@@ -9,6 +9,8 @@ mod fncases;
 mod httpc;
 mod run;
 mod scenario;
+#[cfg(tiny_http_verif)]
+mod walk;
 mod world;
 
 use scenario::Scenario;
@@ -480,6 +482,8 @@ fn main() {
     match args.get(1).map(|s| s.as_str()) {
         Some("run") => ctl::main_run(&args),
         Some("fn") => fncases::main_fn(&args),
+        #[cfg(tiny_http_verif)]
+        Some("walk") => walk::main_walk(&args),
         _ => {
             eprintln!("usage: {} run|fn ...", args[0]);
             std::process::exit(2);
